@@ -1174,6 +1174,9 @@ class Interp:
             interp.ctx.speculative += 1
             try:
                 r = interp.eval(lam.body, f2)
+            except NeedFork:
+                raise Unsupported("quantified contract clause is not a pure term (it mentions a value the "
+                                  "encoding knows nothing about, e.g. the result of an unmodelled call)")
             finally:
                 interp.ctx.speculative -= 1
             if isinstance(r, ForallV):
